@@ -6,8 +6,8 @@ package lattice
 // Field is one dimension.
 type Field struct {
 	Name   string
-	N      int              // number of values, index 0 = default
-	Weight func(i int) int  // deviation weight of value i (nil: 0 for i==0 else 1)
+	N      int             // number of values, index 0 = default
+	Weight func(i int) int // deviation weight of value i (nil: 0 for i==0 else 1)
 	Label  func(i int) string
 }
 
